@@ -228,6 +228,15 @@ func runCheck(prop, tier string, seed int) int {
 				if contractTags(fr.fu.fc)[prop] {
 					rep.undecided = append(rep.undecided, fmt.Sprintf("%s%s: %s", r.Func, modeSuffix(r.Mode), firstLines(r.Err, 2)))
 				}
+				// the obligations generated before the engine gave up stand on their own (each is a statement about the
+				// execution up to its program point): they are still decided, so that a violation in the part that was
+				// reached is reported as one; the function as a whole stays undecided
+				for _, o := range r.Obligations {
+					if o.Kind != "vacuity" && hasTag(o.Tags, prop) {
+						all = append(all, o)
+						oblGOOS[o] = fr.fu.goos
+					}
+				}
 				continue
 			}
 			n := 0
@@ -424,6 +433,10 @@ func runCheck(prop, tier string, seed int) int {
 			rep.known = append(rep.known, line)
 			knownSeen[kf.ID] = true
 			knownObls++
+			continue
+		}
+		if o.Stale != "" {
+			rep.undecided = append(rep.undecided, fmt.Sprintf("%s is no longer established, and its loop contract is out of date (%s): rewrite the invariant for the new loop", o.Name, o.Stale))
 			continue
 		}
 		path, reproduced := writeReplay(replayDir, prop, o, oblGOOS[o], timeout)
